@@ -10,7 +10,11 @@ binding      : the real ch.Client is driven gate by gate (verif hooks + gated in
                (c) the write direction breaking at every byte offset, (d) the server stream cut at every
                byte offset, (e) every callback failing, (f) random schedules; every recorded step is
                validated by TLC against Trace_QL (spec actions + observed wire tokens, callbacks, error
-               classes, closed flag, next request's bytes)."""
+               classes, closed flag, next request's bytes).  What a query leaves behind matters to the next request:
+               (g) sessions of 2-4 requests on ONE client run free (no gates): results, exceptions, inserts, faults
+               that close the client, cancellation and a foreign Close in between, the same result columns bound
+               again; TLC searches the model for every request's outcome AND the packets it wrote (Outcome_QL.tla)
+               and validates the chain (Trace_SessionSeq.tla: a closed client stays closed, refuses without writing)."""
 import json
 import os
 import random
@@ -113,6 +117,46 @@ def body(run):
     if stats["stuck"]:
         V.log("  note: %d runs ended in a Stuck event (reported through trace validation)" % stats["stuck"])
     Q.fill_coverage(run, st, stats, v, lines, len(scs))
+    sessions(run, drv)
+
+
+def sessions(run, drv):
+    """What a query leaves behind matters to the NEXT request: sessions of 2-4 requests on one client, free-running."""
+    rng = random.Random(run.seed + 99)
+    T = run.thorough()
+    ins = [s for s in Q.INSERT_OK if any(i["k"] == "hdr" for i in s)]
+    closing = [Q.S("cut"), Q.S("bad"), Q.S("hdr", "trunc"), Q.S("hdr", "garbage"), Q.S("data", "cut")]
+
+    def request():
+        x = rng.random()
+        if x < 0.35:
+            return Q.cfg("select", rng.choice(Q.SELECT_OK)), ""
+        if x < 0.55:
+            return Q.cfg("select", rng.choice(Q.SELECT_EXC)), ""
+        if x < 0.68:
+            return Q.cfg("insert", rng.choice(ins), init_rows=1), ""
+        if x < 0.80:
+            return Q.cfg("stream", rng.choice(ins), plan=rng.choice(Q.PLANS_OK[:6]), init_rows=rng.choice([0, 1])), ""
+        if x < 0.88:
+            return Q.cfg("insert", rng.choice(Q.INSERT_EXC), init_rows=1), ""
+        if x < 0.94:
+            return Q.cfg("select", rng.choice(closing)), ""
+        return Q.cfg("select", rng.choice(Q.SELECT_OK[2:6])), rng.choice(["cancel", "close"])
+    cases = []
+    for i in range(1200 if T else 160):
+        n = rng.randrange(2, 5)
+        reqs = [request() for _ in range(n)]
+        comp = rng.choice(["disabled", "lz4", "zstd"])
+        cases.append({"session": [Q.scenario("c04s-%d.%d" % (i + 1, j + 1), c, compression=comp) for j, (c, _) in enumerate(reqs)],
+                      "sessionEnv": [e for _, e in reqs], "seed": run.seed * 1000 + i, "repeat": 1})
+    outs = Q.free_sessions(run, PID, drv, cases)
+    starts_closed = sum(1 for e in outs if e["startClosed"])
+    after_exc = sum(1 for a, b in zip(outs, outs[1:]) if b["seq"] == a["seq"] + 1 and a["err"] == "exc" and not b["startClosed"])
+    if starts_closed < 5 or after_exc < 5:
+        raise V.Inconclusive("vacuous sessions: %d requests on a closed client, %d requests after an exception" % (starts_closed, after_exc))
+    run.coverage["session_requests"] = len(outs)
+    run.coverage["session_requests_on_closed_client"] = starts_closed
+    run.coverage["session_requests_after_exception"] = after_exc
 
 
 if __name__ == "__main__":
